@@ -32,6 +32,7 @@ DECIDED = [
     "C14.5 image_lock typestate: yield only after lockf succeeded; bounded wait; exhaustion raises; unlock in finally; fd from `with open`",
     "C14.6 SKIP_LOCKS is False and never assigned; the lock file is never deleted",
     "C14.7 no (transitively) nested image_lock inside a locked section — the inner release would drop the outer per-process lock",
+    "C14.2h the compare that guards each copy covers the complete files (KNOWN FINDING F10: only the first MiB is hashed)",
     "C14.2f the compare that guards each copy hashes both files when asked (no cached or metadata-only comparison)",
 ]
 NOT_DECIDED = ["byte identity of shutil.copy", "POSIX lock semantics across processes and crashes", "remote pools (no remote lock support in the code)"]
@@ -305,8 +306,30 @@ def no_nested_lock(ctx: Ctx, rule: str) -> None:
     ctx.note(f"{rule}: functions acquiring the lock transitively: {len(acquiring)}")
 
 
+def whole_file_compare(ctx: Ctx, rule: str) -> None:
+    """'Skips the copy when both already match' and 'destination byte-identical' need a comparison of the complete files."""
+    n = 0
+    for name in ("compare_local", "compare_remote"):
+        fref = f"{OPS}.{name}"
+        fn = ctx.repo.func(fref)
+        ctx.touch(fref)
+        for c in sorted((c for c in calls_in(fn.node) if call_name(c) == "hash_file"), key=lambda c: c.lineno):
+            n += 1
+            # avocado's crypto.hash_file(filename, size=None, algorithm) / aexpect ops.hash_file(session, filename, size='', method)
+            remote = ast.unparse(c.func.value) == "ops"
+            pos = 2 if remote else 1
+            size = c.args[pos] if len(c.args) > pos else next((k.value for k in c.keywords if k.arg == "size"), None)
+            unlimited = size is None or (isinstance(size, ast.Constant) and size.value in (None, "", 0))
+            ctx.record(rule, "PROV", fref, ast.unparse(c), unlimited, {"size_argument": ast.unparse(size) if size is not None else None},
+                       "" if unlimited else f"{name} compares only the first {ast.unparse(size)} bytes: files that differ later count as matching, the copy is skipped and the destination is not byte-identical")
+    if n < 4:
+        raise AnalysisError(f"only {n} hash_file call sites found in the comparisons, expected 4")
+
+
 def run(ctx: Ctx) -> None:
     from .c13 import fresh_checksums
+
+    ctx.call(whole_file_compare, "2h")
 
     ctx.call(fresh_checksums, "2f")
     ctx.call(no_nested_lock, "7")
@@ -321,6 +344,8 @@ def run(ctx: Ctx) -> None:
 
 
 MUTANTS = [
+    ("compare-first-4k-only", POOL, "            local_hash = crypto.hash_file(cache_path, 1048576, \"md5\")\n        else:\n            local_hash = \"\"\n        if os.path.exists(pool_path):",
+     "            local_hash = crypto.hash_file(cache_path, 4096, \"md5\")\n        else:\n            local_hash = \"\"\n        if os.path.exists(pool_path):", "2h"),
     ("copy-outside-lock", POOL, "                return\n            shutil.copy(pool_path, cache_path)", "                return\n        shutil.copy(pool_path, cache_path)", "1m"),
     ("lock-cache-path", POOL, "        with image_lock(pool_path, update_timeout) as lock:\n            if TransferOps.compare_local(cache_path, pool_path, params):\n                logging.info(f\"Skip upload",
      "        with image_lock(cache_path, update_timeout) as lock:\n            if TransferOps.compare_local(cache_path, pool_path, params):\n                logging.info(f\"Skip upload", "1"),
